@@ -117,6 +117,22 @@ def check_wrap(o):
                 bad.append(("landmark group %r not carried / rescaled to the new size" % n, {"got": r.landmarks[n].points, "want": L.pts(pts)}, None))
             if np.shares_memory(r.landmarks[n].points, img.landmarks[n].points):
                 bad.append(("result landmarks alias the input's", {}, None))
+    # the result OWNS its annotations: adding, editing and deleting groups on it is not seen by the input image
+    if hasattr(r, "landmarks") and hasattr(img, "landmarks"):
+        from menpo.shape import PointCloud as _PC
+        before = {n: img.landmarks[n].points.copy() for n in (img.landmarks.group_labels if img.has_landmarks else [])}
+        if r.landmarks is img.landmarks:
+            bad.append(("the feature image and the input image share one landmark manager", {}, None))
+        r.landmarks["__probe__"] = _PC(np.zeros((1, img.n_dims)))
+        for n in list(r.landmarks.group_labels):
+            r.landmarks[n].points[...] += 1.0
+        after = {n: img.landmarks[n].points.copy() for n in (img.landmarks.group_labels if img.has_landmarks else [])}
+        if sorted(after) != sorted(before) or any(not np.array_equal(before[n], after[n]) for n in before):
+            bad.append(("editing the landmarks of the feature image changed the input image's landmarks", {"groups": sorted(after)}, None))
+        for n in list(r.landmarks.group_labels):
+            del r.landmarks[n]
+        if sorted(img.landmarks.group_labels if img.has_landmarks else []) != sorted(before):
+            bad.append(("deleting landmark groups of the feature image deleted them on the input image", {}, None))
     if o["mask_rule"] == "copy":
         if not np.array_equal(r.mask.mask, img.mask.mask):
             bad.append(("mask not carried over unchanged", {}, None))
@@ -127,6 +143,32 @@ def check_wrap(o):
         if r.mask.shape != tuple(o["shape"]) or not np.array_equal(r.mask.mask, want.mask):
             bad.append(("mask not resized to the feature image's size", {}, None))
     return bad
+
+
+def _owns_landmarks(r, x, tag, bad):
+    """a normalised image keeps the input's annotations as its OWN copies (add / edit / delete on the result is not seen by the input)"""
+    from menpo.shape import PointCloud as _PC
+    if isinstance(x, np.ndarray) or isinstance(r, np.ndarray):
+        return
+    want = {n: x.landmarks[n].points.copy() for n in x.landmarks.group_labels}
+    have = {n: r.landmarks[n].points.copy() for n in (r.landmarks.group_labels if r.has_landmarks else [])}
+    if sorted(have) != sorted(want) or any(not np.array_equal(have[n], want[n]) for n in want):
+        bad.append((tag + ": the landmarks of the input are not carried onto the normalised image", {"got": sorted(have), "want": sorted(want)}, None))
+        return
+    if r.landmarks is x.landmarks or any(np.shares_memory(r.landmarks[n].points, x.landmarks[n].points) for n in want):
+        bad.append((tag + ": the normalised image shares its landmark manager / point buffers with the input", {}, None))
+    r.landmarks["__probe__"] = _PC(np.zeros((1, x.n_dims)))
+    for n in want:
+        r.landmarks[n].points[...] += 1.0
+    now = {n: x.landmarks[n].points.copy() for n in x.landmarks.group_labels}
+    if sorted(now) != sorted(want) or any(not np.array_equal(now[n], want[n]) for n in want):
+        bad.append((tag + ": editing the landmarks of the normalised image changed the input image's landmarks", {"groups": sorted(now)}, None))
+    # put the input back for the calls that follow
+    for n in list(x.landmarks.group_labels):
+        if n not in want:
+            del x.landmarks[n]
+    for n in want:
+        x.landmarks[n].points[...] = want[n]
 
 
 def check_norm(o):
@@ -156,6 +198,10 @@ def check_norm(o):
             nz = scale != 0
             want[nz] = cen[nz] / scale[nz][:, None, None]
     inputs = [("array", px.copy()), ("Image", Image(px.copy())), ("MaskedImage", MaskedImage(px.copy()))]
+    from menpo.shape import PointCloud
+    for _, x in inputs[1:]:
+        x.landmarks["a"] = PointCloud(np.array([[0.0, 0.0], [1.0, 0.5]]))
+        x.landmarks["b"] = PointCloud(np.array([[0.5, 1.0]]))
     for tag, x in inputs:
         keep = px.copy()
         try:
@@ -179,6 +225,7 @@ def check_norm(o):
             bad.append((tag + ": normalised values differ from (x - mean) / scale", {"got": got, "want": want}, None))
         if not np.array_equal(px, keep) or (not isinstance(x, np.ndarray) and not np.array_equal(x.pixels, keep)):
             bad.append((tag + ": the normaliser modified its input", {}, None))
+        _owns_landmarks(r, x, tag, bad)
         # the same request through the generic normaliser with the matching scale statistic, and with the options given by position:
         # same outcome, same values, same kind of result
         def _stat(v, axis=None):
@@ -200,6 +247,7 @@ def check_norm(o):
                     r2 = call()
                 g2 = r2 if isinstance(r2, np.ndarray) else r2.pixels
                 out2 = "value"
+                _owns_landmarks(r2, fresh, tag + ": " + ctag, bad)
             except ValueError:
                 out2 = "ValueError"
             except Exception as e:
